@@ -401,3 +401,44 @@ Fixpoint own_sets (c : nat) (h : list cop) : dctable :=
   | SetDC c' t :: h' => if Nat.eqb c' c then own_sets c h' ++ t else own_sets c h'
   | _ :: h' => own_sets c h'
   end.
+
+(* ------------------------------------------------------------------------------------ *)
+(* makeRequest for ONE caller against several data centres, sequentially: the request is written
+   to the client's current address; an rpc_error answer goes through [handle]; on [Switch a] the
+   client's address becomes a (Reconnect is assumed to succeed) and the same request is written
+   again; any other decision ends the call with the structured error.  A data centre is a
+   function from the request to its reply.  [fuel] bounds the number of writes (the Go code
+   recurses for as long as data centres keep answering PHONE_MIGRATE_X).
+   Concurrency (several callers, the receive loop) is NOT in this model: that half of the
+   property is tied to the code by the live correspondence only. *)
+
+Inductive reply := RValue (v : bytes) | RError (code : Z) (text : bytes).
+
+Inductive call_result :=
+| CValue (v : bytes)
+| CFailed (e : native) (a : action)
+| CPanic
+| COutOfFuel.
+
+Record call_end := {
+  c_result : call_result;
+  c_addr : bytes;                       (* the client's address afterwards *)
+  c_writes : list (bytes * bytes)       (* (address, request) in the order written *)
+}.
+
+Fixpoint make_request (fuel : nat) (tbl : table) (cat : catalogue) (dcs : dctable)
+         (dc : bytes -> bytes -> reply) (addr req : bytes) (writes : list (bytes * bytes)) : call_end :=
+  match fuel with
+  | O => {| c_result := COutOfFuel; c_addr := addr; c_writes := writes |}
+  | S f =>
+      let writes' := writes ++ [(addr, req)] in
+      match dc addr req with
+      | RValue v => {| c_result := CValue v; c_addr := addr; c_writes := writes' |}
+      | RError code text =>
+          match handle tbl cat dcs code text with
+          | Ok (_, Switch a) => make_request f tbl cat dcs dc a req writes'
+          | Ok (e, act) => {| c_result := CFailed e act; c_addr := addr; c_writes := writes' |}
+          | _ => {| c_result := CPanic; c_addr := addr; c_writes := writes' |}
+          end
+      end
+  end.
